@@ -28,7 +28,7 @@ theorem writeFont_exit (std : List String) (f : FontIn) (file : Bytes) (passes :
     obtain ⟨fx, sc⟩ := v
     rw [hp] at h
     simp only at h
-    cases hl : writeLoop (mkBlobs std f.ros.isSome fx sc) sc.num (writeFuel std f.ros.isSome fx sc) (cumsum (initialBlobs fx)) 0 with
+    cases hl : writeLoop (mkBlobs std f.ros.isSome fx sc) sc.num (writeFuel fx) (cumsum (initialBlobs fx)) 0 with
     | none => rw [hl] at h; cases h
     | some r =>
       obtain ⟨blobs, offs, k⟩ := r
